@@ -22,7 +22,7 @@ func init() {
 		}
 		r.check(good, "handleMartianErrorStatus", ms.Pos(), "ErrorStatus → its own status", "martian.ErrorStatus is not mapped to its status")
 	})
-	register("C18", "R5", 3, "membership: the production request chain contains the Via modifier unconditionally (for CONNECT and non-CONNECT alike), after hop-by-hop removal, built with the configured proxy name", c18r5)
+	register("C18", "R5", 4, "membership: the production request chain contains the Via modifier unconditionally (for CONNECT and non-CONNECT alike), after hop-by-hop removal, built with the configured proxy name", c18r5)
 }
 
 const viaChain = `strings.Join((net/http.Header).Values($1.Header, "Via"), ", ")`
@@ -211,5 +211,22 @@ func c18r5(r *R) {
 	for _, c := range calls(ms, nameIs("martian/httpspec.NewStack")) {
 		ok = describe(c.Common().Args[0]) == "$0.config.Name"
 	}
+	// the CONNECT sent to an upstream proxy carries the client's (already modified, Via-tagged) CONNECT header
+	dl := r.method("dialvia", "HTTPProxyDialer", "DialContextR")
+	var base, dyn *ssa.Call
+	for _, c := range calls(dl, nameIs("maps.Copy")) {
+		switch d := describe(c.Common().Args[1]); {
+		case d == "$0.ProxyConnectHeader":
+			base = c.(*ssa.Call)
+		case strings.HasPrefix(d, "dyn:$0.GetProxyConnectHeader("):
+			dyn = c.(*ssa.Call)
+		}
+	}
+	var wr ssa.Instruction
+	for _, c := range calls(dl, nameIs("(*net/http.Request).Write")) {
+		wr = c.(ssa.Instruction)
+	}
+	merged := base != nil && wr != nil && instrDominates(base, wr) && (dyn == nil || before(base, dyn) && describe(base.Common().Args[0]) == describe(dyn.Common().Args[0]))
+	r.check(merged, "DialContextR#connect-header", dl.Pos(), "ProxyConnectHeader copied into the CONNECT request on every path; dynamic headers are merged over it", "the client's CONNECT header (with this instance's Via element) does not always reach the upstream proxy: dynamic connect headers replace it instead of being merged")
 	r.check(ok, "middlewareStack#NewStack(name)", ms.Pos(), "stack built with the configured proxy name", "the production stack is not built by httpspec.NewStack(config.Name)")
 }
